@@ -246,6 +246,11 @@ func verifSchemaSB() *schema.BodySchema {
 		Attributes: map[string]*schema.AttributeSchema{
 			"top": {Constraint: str, IsOptional: true,
 				Address: &schema.AttributeAddrSchema{Steps: schema.Address{schema.StaticStep{Name: "top"}}, AsReference: true, AsExprType: true, ScopeId: lang.ScopeId("topscope")}},
+			// map-typed values, addressable with their elements
+			"tags": {Constraint: schema.Map{Elem: schema.AnyExpression{OfType: cty.String}}, IsOptional: true,
+				Address: &schema.AttributeAddrSchema{Steps: schema.Address{schema.StaticStep{Name: "tags"}}, AsReference: true, AsExprType: true, ScopeId: lang.ScopeId("tags")}},
+			"amapt": {Constraint: schema.AnyExpression{OfType: cty.Map(cty.String)}, IsOptional: true,
+				Address: &schema.AttributeAddrSchema{Steps: schema.Address{schema.StaticStep{Name: "amapt"}}, AsReference: true, AsExprType: true, ScopeId: lang.ScopeId("tags")}},
 		},
 		Blocks: map[string]*schema.BlockSchema{
 			// dependent body selected by the first label; docs link; extensions
@@ -442,6 +447,8 @@ func verifSeedList() []verifSeed {
 		{"blk-nolabel", "blk {\n}\n", 0},
 		{"blk-partial-label", "blk \"a\n", 0},
 		{"blk-oneline", "nolabel { x = 1 }\n", 0},
+		{"blk-then-nolabel", "blk \"a\" {\n  req = 1\n}\nnolabel {\n}\n", 0},
+		{"nolabel-then-blk", "nolabel {\n}\nblk \"a\" {\n  req = 1\n}\n", 0},
 		{"two-nolabel", "nolabel {\n}\nnolabel {\n}\n", 0},
 		{"unknown-attr", "zzz = 1\nstr = \"a\"\n", 0},
 		{"unknown-blk", "qqq \"x\" {\n  a = 1\n}\n", 0},
@@ -533,14 +540,21 @@ func verifSeedList() []verifSeed {
 		{"call-noparams-nested", "astr = f1( f0( ) )\n", 0},
 		{"data-refs", "data \"d\" {\n  id = \"i\"\n  n = 1\n}\nout \"o\" {\n  value = data.d.id\n  deps = [ zed.id ]\n}\n", 2},
 		{"opt-member", "opt \"o\" {\n  x = var.foo\n  member {\n    who = var.foo\n  }\n}\n", 2},
+		{"alst-for-multiline", "alst = [\n  for x in var.foo : x\n]\n", 0},
+		{"amap-for-multiline", "amap = {\n  for k, v in var.foo : k => v\n}\n", 0},
 		{"mod-dep", "mod \"m\" {\n  source = \"./m\"\n  input = \"i\"\n}\n", 2},
 		{"mod-nodep", "mod \"m\" {\n  source = \"./other\"\n  input = \"i\"\n}\n", 2},
 		{"variable", "variable \"v\" {\n  type = list(string)\n  default = [ \"a\" ]\n}\n", 2},
 		{"variable-notype", "variable \"w\" {\n}\n", 2},
 		{"locals", "locals {\n  a = \"x\"\n  b = { k = 1 }\n  c = [ 1, 2 ]\n}\n", 2},
+		{"locals-quoted-keys", "locals {\n  o = { \"k\" = 1, l = { \"x\" = \"y\" } }\n  m = { \"a b\" = [ 1 ] }\n}\n", 2},
+		{"res-foreach-half", "res \"aws\" \"a\" {\n  for_each = var.x\n  size = each\n}\n", 2},
+		{"res-self-half", "res \"aws\" \"a\" {\n  size = 1\n  marker = self\n}\n", 2},
 		{"locals-nested", "locals {\n  c = [ [ \"a\", \"b\" ], [ \"c\" ] ]\n  o = { k = { x = 1, y = 2 }, l = { z = 3 } }\n  t = [ 1, 2, 3 ]\n}\n", 2},
 		{"data", "data \"d\" {\n  id = \"i\"\n  lst {\n    v = \"a\"\n  }\n  lst {\n    v = \"b\"\n  }\n  obj {\n    w = 1\n  }\n}\n", 2},
 		{"out-refs", "out \"o\" {\n  value = var.v\n  deps = [ aws.a, gcp.b ]\n}\n", 2},
+		{"tags", "tags = { \"k\" = \"v\", l = \"w\" }\n", 2},
+		{"amapt", "amapt = {\n  \"a b\" = \"x\"\n  c = var.foo\n}\n", 2},
 		{"top-attr", "top = \"t\"\n", 2},
 		{"sb-mixed", "top = \"t\"\nvariable \"v\" {\n  type = string\n}\nout \"o\" {\n  value = var.v\n}\n", 2},
 	}
